@@ -444,6 +444,11 @@ void sm2_z256_modp_tri(sm2_z256_t r, const sm2_z256_t a)
 
 void sm2_z256_modp_neg(sm2_z256_t r, const sm2_z256_t a)
 {
+	// -0 = 0, not the modulus
+	if (sm2_z256_is_zero(a)) {
+		sm2_z256_set_zero(r);
+		return;
+	}
 	(void)sm2_z256_sub(r, SM2_Z256_P, a);
 }
 
@@ -843,6 +848,11 @@ void sm2_z256_modn_sub(sm2_z256_t r, const sm2_z256_t a, const sm2_z256_t b)
 
 void sm2_z256_modn_neg(sm2_z256_t r, const sm2_z256_t a)
 {
+	// -0 = 0, not the modulus
+	if (sm2_z256_is_zero(a)) {
+		sm2_z256_set_zero(r);
+		return;
+	}
 	(void)sm2_z256_sub(r, SM2_Z256_N, a);
 }
 #endif
